@@ -80,7 +80,7 @@ CLAIMED = {
         "design": "DESIGN.md section 7 C16",
     },
     "C18": {
-        "text": "Coq theorems over the reals: the polynomial built from 1..8 Bezier control points and a duration evaluates to the de Casteljau curve at u/duration (the code's second branch of sb_poly_make_linear for a duration below FLT_EPSILON is transcribed separately: constant midpoint, equal to the generic constructor elsewhere); derivative / scale / stretch / add-constant laws for every length; hodograph; the executable rational instance agrees with the real one; the factorial table regenerated from poly.c is the factorials; Horner evaluation in the binary32 model is within gamma_2n * sum|c_i||u|^i of the exact value for every coefficient list and argument (Higham's bound; 17*2^-24 for up to 8 coefficients), likewise a+b*u. Root finding (degree <= 3, libm-based in the code): the certificates used as the oracle are proved sound over the reals (interval Horner enclosure, exclusion by bisection, every real root inside the Cauchy bound lies in a reported box, a sign change certifies a root, extrema enclosures; closed forms for degree <= 2), so each run's verdicts are per-instance theorems. Tied to the code by differential runs within float evaluation bounds and against the certificates. A binary32 model of the linear touch test (Model/Touch.v) with the theorem that a straight segment is reported to take, in [0,1], the two values its own binary32 evaluation gives at u = 0 and u = 1, for every pair of binary32 coefficients with a significant slope; the extracted model and the library must agree bit for bit on those end values and answers.",
+        "text": "Coq theorems over the reals: the polynomial built from 1..8 Bezier control points and a duration evaluates to the de Casteljau curve at u/duration (the code's second branch of sb_poly_make_linear for a duration below FLT_EPSILON is transcribed separately: constant midpoint, equal to the generic constructor elsewhere); derivative / scale / stretch / add-constant laws for every length; hodograph; the executable rational instance agrees with the real one; the factorial table regenerated from poly.c is the factorials; Horner evaluation in the binary32 model is within gamma_2n * sum|c_i||u|^i of the exact value for every coefficient list and argument (Higham's bound; 17*2^-24 for up to 8 coefficients), likewise a+b*u. Root finding (degree <= 3, libm-based in the code): the certificates used as the oracle are proved sound over the reals (interval Horner enclosure, exclusion by bisection, every real root inside the Cauchy bound lies in a reported box, a sign change certifies a root, extrema enclosures; closed forms for degree <= 2), so each run's verdicts are per-instance theorems. Tied to the code by differential runs within float evaluation bounds and against the certificates. A binary32 model of the linear touch test (Model/Touch.v) with the theorem that a straight segment is reported to take, in [0,1], the two values its own binary32 evaluation gives at u = 0 and u = 1, for every pair of binary32 coefficients with a significant slope; the extracted model and the library must agree bit for bit on those end values and answers. A binary32 model of the closed-form solvers for at most three significant coefficients (Model/Solve32.v: at most two roots, correctly rounded linear root, root count decided by the computed discriminant, Vieta product within two roundings), compared with sb_poly_solve bit for bit.",
         "note": "Trusted: Coq kernel; standard-library real-number axioms (sig_forall_dec, sig_not_dec, functional_extensionality_dep, classic); the Horner evaluation bound is proved (no axioms), the bounds for coefficient conversion and the root tolerances are assumed/calibrated, cubic root claims are per instance (certificate), not for all inputs; known finding D13 (extrema of degree > 3 unset). Extraction; harness.",
         "technique": "Coq proof over R (field identities, Coquelicot derivatives, verified interval/bisection certificates) + differential correspondence",
         "design": "DESIGN.md section 7 C18",
